@@ -620,8 +620,111 @@ class ModuleInliner:
                             st.body = [s for s in st.body if s is not h.node] or [ast.Pass()]
                 self.log.append(f"{self.modname}: removed inlined helper {cls + '.' if cls else ''}{name}")
                 REMOVED.setdefault(self.modname, []).append(h.node)
+        if any(h.inlined_sites for h in self.helpers.values()) or any(h.inlined_sites for h in self.imported.values()):
+            # "…{}…".format("x") left behind by a helper called with literal arguments (possibly through a once-assigned literal local)
+            for _pass in range(3):
+                _FoldLiteralStrings().visit(self.tree)
+                if not _propagate_literal_string_locals(self.tree):
+                    break
         ast.fix_missing_locations(self.tree)
         return self.tree
+
+
+def _propagate_literal_string_locals(tree: ast.AST) -> bool:
+    """Inside each function: a local name bound exactly once, by `name = "literal"`, and never rebound in any other way, is replaced by
+    the literal where it is read.  Returns whether anything was replaced."""
+    changed = False
+    for fn in [n for n in ast.walk(tree) if isinstance(n, FuncNode)]:
+        stores: Dict[str, int] = {}
+        lit: Dict[str, ast.Constant] = {}
+        params = {a.arg for a in fn.args.posonlyargs + fn.args.args + fn.args.kwonlyargs}
+        if fn.args.vararg:
+            params.add(fn.args.vararg.arg)
+        if fn.args.kwarg:
+            params.add(fn.args.kwarg.arg)
+        for n in _walk_no_nested_defs(fn.body):
+            if isinstance(n, ast.Name) and isinstance(n.ctx, (ast.Store, ast.Del)):
+                stores[n.id] = stores.get(n.id, 0) + 1
+            if isinstance(n, (ast.Global, ast.Nonlocal)):
+                for nm in n.names:
+                    stores[nm] = stores.get(nm, 0) + 2
+            if isinstance(n, ast.Assign) and len(n.targets) == 1 and isinstance(n.targets[0], ast.Name) and isinstance(n.value, ast.Constant) and isinstance(n.value.value, str):
+                lit[n.targets[0].id] = n.value
+        # nested functions may rebind through nonlocal: be conservative when the name is stored anywhere below
+        for sub in ast.walk(fn):
+            if sub is not fn and isinstance(sub, FuncNode):
+                for n in ast.walk(sub):
+                    if isinstance(n, ast.Nonlocal):
+                        for nm in n.names:
+                            stores[nm] = stores.get(nm, 0) + 2
+        ok = {k: v for k, v in lit.items() if stores.get(k) == 1 and k not in params}
+        if not ok:
+            continue
+
+        class R(ast.NodeTransformer):
+            def visit_Name(self, n):
+                nonlocal changed
+                if isinstance(n.ctx, ast.Load) and n.id in ok:
+                    changed = True
+                    return ast.copy_location(ast.Constant(value=ok[n.id].value), n)
+                return n
+
+            def visit_FunctionDef(self, n):
+                return n if n is not fn else self.generic_visit(n)
+
+            visit_AsyncFunctionDef = visit_FunctionDef
+            visit_Lambda = lambda self, n: n
+        R().visit(fn)
+    return changed
+
+
+class _FoldLiteralStrings(ast.NodeTransformer):
+    """String expressions all of whose operands are literals become the literal: str.format / % / + / f-strings / implicit joins."""
+
+    @staticmethod
+    def _lit(n):
+        return isinstance(n, ast.Constant) and isinstance(n.value, (str, int, float, bool)) and not isinstance(n.value, bytes)
+
+    def visit_Call(self, c: ast.Call):
+        self.generic_visit(c)
+        f = c.func
+        if isinstance(f, ast.Attribute) and f.attr == "format" and isinstance(f.value, ast.Constant) and isinstance(f.value.value, str) \
+                and all(self._lit(a) for a in c.args) and all(k.arg and self._lit(k.value) for k in c.keywords):
+            try:
+                return ast.copy_location(ast.Constant(value=f.value.value.format(*[a.value for a in c.args], **{k.arg: k.value.value for k in c.keywords})), c)
+            except (IndexError, KeyError, ValueError):
+                return c
+        return c
+
+    def visit_BinOp(self, b: ast.BinOp):
+        self.generic_visit(b)
+        if isinstance(b.op, ast.Add) and isinstance(b.left, ast.Constant) and isinstance(b.right, ast.Constant) and isinstance(b.left.value, str) and isinstance(b.right.value, str):
+            return ast.copy_location(ast.Constant(value=b.left.value + b.right.value), b)
+        if isinstance(b.op, ast.Mod) and isinstance(b.left, ast.Constant) and isinstance(b.left.value, str):
+            r = b.right
+            vals = None
+            if self._lit(r):
+                vals = r.value
+            elif isinstance(r, ast.Tuple) and all(self._lit(e) for e in r.elts):
+                vals = tuple(e.value for e in r.elts)
+            if vals is not None:
+                try:
+                    return ast.copy_location(ast.Constant(value=b.left.value % vals), b)
+                except (TypeError, ValueError):
+                    return b
+        return b
+
+    def visit_JoinedStr(self, j: ast.JoinedStr):
+        self.generic_visit(j)
+        out = ""
+        for p in j.values:
+            if isinstance(p, ast.Constant) and isinstance(p.value, str):
+                out += p.value
+            elif isinstance(p, ast.FormattedValue) and p.conversion == -1 and p.format_spec is None and isinstance(p.value, ast.Constant) and isinstance(p.value.value, str):
+                out += p.value.value
+            else:
+                return j
+        return ast.copy_location(ast.Constant(value=out), j)
 
 
 def inline_unknown_helpers(tree: ast.Module, modname: str, known: Set[str]) -> Tuple[ast.Module, List[str]]:
@@ -803,6 +906,8 @@ def undo_renames(trees: Dict[str, ast.Module], known_functions: Set[str], signat
                     want = set(sig.get("calls", []))
                     scored = []
                     for u in unknown:
+                        if len(u.args.posonlyargs + u.args.args + u.args.kwonlyargs) != len(sig["params"]):
+                            continue  # a different arity is a different function (e.g. two helpers merged into one with a selector)
                         got = _fingerprint(u)
                         if want and got:
                             j = len(want & got) / len(want | got)
